@@ -94,6 +94,12 @@ func natArg(a pure.ActualNatArg) NatArgJ {
 }
 
 func buildKernel(tl2 string, files []string) (*pure.Kernel, error) {
+	// the kernel prints progress with fmt.Printf: keep our stdout protocol clean
+	old := os.Stdout
+	if null, err := os.OpenFile(os.DevNull, os.O_WRONLY, 0); err == nil {
+		os.Stdout = null
+		defer func() { os.Stdout = old; null.Close() }()
+	}
 	opts := &pure.OptionsKernel{TypesWhiteList: "*", TL2WhiteList: tl2, ErrorWriter: io.Discard, InstantiateConstants: true}
 	k := pure.NewKernel(opts)
 	if err := k.AddFilesFromPaths(files); err != nil {
@@ -210,7 +216,7 @@ func errStr(err error) string {
 	return "err rej"
 }
 
-// line: codec.<op> <sid> <tyIdx> <tlname> <hex>      ops: r1 (bare) r1b (boxed) r2
+// line: codec.x1 <sid> <tyIdx> <tlname> <boxed01> <hex>   (same format as the generated-code driver)
 func otfHandle(k *pure.Kernel, all []pure.TypeInstance, line string) (res string) {
 	defer func() {
 		if r := recover(); r != nil {
@@ -218,11 +224,17 @@ func otfHandle(k *pure.Kernel, all []pure.TypeInstance, line string) (res string
 		}
 	}()
 	f := strings.Fields(line)
-	if len(f) != 5 {
+	if len(f) >= 1 && f[0] == "codec.desc" {
+		if len(f) > 3 {
+			return "ok " + f[3]
+		}
+		return "ok 0"
+	}
+	if len(f) != 6 || f[0] != "codec.x1" {
 		return "bad-op"
 	}
 	ty, err := strconv.Atoi(f[2])
-	data, ok := unhex(f[4])
+	data, ok := unhex(f[5])
 	if err != nil || !ok || ty < 0 || ty >= len(all) {
 		return "bad-op"
 	}
@@ -230,14 +242,7 @@ func otfHandle(k *pure.Kernel, all []pure.TypeInstance, line string) (res string
 	v := onthefly.CreateValue(ins)
 	ctx := &onthefly.TLContext{}
 	var rest []byte
-	switch f[0] {
-	case "codec.r1", "codec.r1b":
-		rest, _, err = v.ReadTL1(data, ctx, f[0] == "codec.r1", nil)
-	case "codec.r2":
-		rest, err = v.ReadTL2(data, ctx)
-	default:
-		return "bad-op"
-	}
+	rest, _, err = v.ReadTL1(data, ctx, f[4] != "1", nil)
 	if err != nil {
 		return errStr(err)
 	}
@@ -246,24 +251,17 @@ func otfHandle(k *pure.Kernel, all []pure.TypeInstance, line string) (res string
 	_, isUnion := ins.(*pure.TypeInstanceUnion)
 	if !isUnion {
 		var w onthefly.ByteBuilder
-		v.WriteTL1(&w, true, nil, false, 0, nil)
+		v.WriteTL1(&w, true, nil, false, 0, &onthefly.UIModel{})
 		fmt.Fprintf(&sb, " w1=%s", hx(w.Buf()))
 	} else {
 		sb.WriteString(" w1=n/a")
 	}
-	if _, isArr := ins.(*pure.TypeInstanceArray); !isArr && ins.Common().TLTag() != 0 || isUnion {
+	if isUnion || ins.Common().TLTag() != 0 {
 		var w onthefly.ByteBuilder
-		v.WriteTL1(&w, false, nil, false, 0, nil)
+		v.WriteTL1(&w, false, nil, false, 0, &onthefly.UIModel{})
 		fmt.Fprintf(&sb, " w1b=%s", hx(w.Buf()))
 	} else {
 		sb.WriteString(" w1b=n/a")
-	}
-	if ins.Common().HasTL2() {
-		var w onthefly.ByteBuilder
-		v.WriteTL2(&w, false, false, 0, nil)
-		fmt.Fprintf(&sb, " w2=%s", hx(w.Buf()))
-	} else {
-		sb.WriteString(" w2=n/a")
 	}
 	return sb.String()
 }
